@@ -32,6 +32,8 @@ static const scen SC[] = {
 	{ "dispatch_block_perform", 'S', 0, { "p", 0, 0 } },
 	{ "dispatch_block_perform with BARRIER|INHERIT flags", 'S', DISPATCH_BLOCK_BARRIER | DISPATCH_BLOCK_INHERIT_QOS_CLASS, { "p", 0, 0 } },
 	{ "timed wait that must time out (block never submitted before)", 'S', 0, { "Ta", 0, 0 } },
+	{ "cancel lands during a timed wait that times out; then testcancel and submit", 'S', 0, { "Tta", "c", 0 } },
+	{ "cancel lands during a timed wait on a running block; testcancel afterwards", 'S', 0, { "aTt", "c", 0 } },
 };
 #define NSC ((int)(sizeof(SC) / sizeof(SC[0])))
 #define BODY 100
